@@ -90,6 +90,31 @@ CHECKS = {
              'correspondence in this revision; the EncTrack relation theorems are under construction. debug=True is I/O, correspondence-only.',
         technique='Lean 4 proof (VLQ denotation by induction, clip lemmas) over a hand model; differential correspondence + independent reference decoder',
         design='5 C08'),
+    'C16': dict(
+        text='The MidiFile container is modelled as a state machine over edit and observation operations; history independence, purity and '
+             'erasability of observations are theorems (immediate for a state without a memo field - the assurance that the implementation '
+             'is such a state comes from the correspondence); every observation (merged_track, iteration, length, save, play) of histories on '
+             'real objects is compared with a freshly built file (oracle) and merged_track with the model; all short histories exhaustively.',
+        note='The theorem is cheap by design; the tie to the code is the history correspondence. In-place mutation other than through setattr is not an edit route.',
+        technique='Lean 4 proof (state-machine model, induction over op list) + differential correspondence on op histories with a fresh-object oracle',
+        design='5 C16'),
+    'C17': dict(
+        text='The process-wide charset is modelled as explicit global state with the context manager restoring on both paths; theorem: after ANY '
+             'sequence of loads/saves (every failure point of the reader/writer model is a value) the charset is the initial one and a probe '
+             'encoding elsewhere uses it; text payload = encodeText(charset); UTF-8, latin1 and ascii encode/decode round trips proved. '
+             'Correspondence and oracle over 8 codecs x texts x truncation / bad data byte / bad time / undecodable text fault points.',
+        note='The codecs are CPython\'s; the model implements latin1, ascii and strict UTF-8; the other five codecs are oracle-only. Concurrent loads are outside.',
+        technique='Lean 4 proof (scoped-global state machine; UTF-8 codec round trip by case analysis + omega) + fault-point enumeration against the implementation',
+        design='5 C17'),
+    'C20': dict(
+        text='Decision-logic theorems over all configurations with unbounded strings: lazy single import, explicit name beats environment, '
+             'environment default only with use_environ, API suffix reaches every constructor and device query unless overridden by the call, '
+             'explicit api beats the name\'s and the name is always split, name listings from the device list, open_ioport native-or-pair '
+             'with exact constructor list. Correspondence exhaustive over a ~40 k configuration grid with a recording fake module; '
+             'set_backend checked on the real module.',
+        note='MIDO_BACKEND is read regardless of use_environ. set_backend rebinding is correspondence-only.',
+        technique='Lean 4 proof (decision logic, simp/case analysis) over a hand model; exhaustive differential correspondence over the configuration grid',
+        design='5 C20'),
 }
 
 PENDING = ['C02', 'C03', 'C04', 'C05', 'C06', 'C07', 'C08', 'C09', 'C10', 'C11', 'C12', 'C13', 'C14', 'C15',
